@@ -143,7 +143,7 @@ _EXTRA = [
     ("jku", ["https://issuer.example/jwks.json", "http://a/b?c=d&e=f"]),
     ("x5t", ["dGh1bWI", "AAAA"]),
     ("x5u", ["https://x.example/cert.pem"]),
-    ("x5c", [["MIIB", "MIIC"], []]),
+    ("x5c", [["MIIB", "MIIC"], [], K.x5c_fixture()["chain"], K.x5c_fixture()["chain"][:1]]),
     # an embedded public key with its own kid / alg / use beside the header's (DPoP, ACME)
     ("jwk", [{"kty": "EC", "crv": "P-256", "x": "f83OJ3D2xF1Bg8vub9tLe1gHMzV76e8Tus9uPHvRVEU", "y": "x_FEzRu9m36HLN_tue659LNpXW6pCyStikYjKIWI5a0",
               "kid": "embedded-key", "alg": "ES256", "use": "sig"},
